@@ -1743,8 +1743,16 @@ impl GrafeoDB {
         // not an allocation of up to 2^64 bytes (which aborts the process).
         const SNAPSHOT_DECODE_LIMIT: usize = 1 << 30;
         let config = bincode::config::standard().with_limit::<SNAPSHOT_DECODE_LIMIT>();
-        let (snapshot, _): (Snapshot, _) = bincode::serde::decode_from_slice(data, config)
-            .map_err(|e| Error::Internal(format!("snapshot import failed: {e}")))?;
+        let (snapshot, consumed): (Snapshot, usize) =
+            bincode::serde::decode_from_slice(data, config)
+                .map_err(|e| Error::Internal(format!("snapshot import failed: {e}")))?;
+
+        if consumed != data.len() {
+            return Err(Error::Internal(format!(
+                "snapshot import failed: {} trailing bytes after the snapshot",
+                data.len() - consumed
+            )));
+        }
 
         if snapshot.version != 1 {
             return Err(Error::Internal(format!(
